@@ -34,13 +34,29 @@ CFG = {
             "missing exec.d source, restore, corrupted metadata file); family 'scopes': an env populating all five scope directories, then "
             "update / recreate (with and without a restore) returning exactly the entries of every one of the 32 subsets of the scopes, "
             "everything else identical; family 'sets': identical env, every subset of the exec.d programs x SBOMs, with/without the files; "
-            "directed: create-restore-<every alphabet call>-restore-keep for five type combinations; 'dotted': three layers a, a.tools, a.sbom "
-            "populated, restored and then kept/updated/recreated in every order; sampled: 2 000 (quick) / 30 000 (thorough) histories of <=10 "
-            "operations over two or three layer names (half of them the dotted-prefix names) whose successive results on a layer are "
+            "directed: create-restore-<every alphabet call>-restore-keep for five type combinations; 'dotted': three layers populated, restored "
+            "and then kept/updated/recreated in every order, over 10 name universes (dotted prefix a/a.tools/a.sbom, a/a.b/a.b.c, another layer's "
+            "file stem a.sbom.cdx / a.toml.x, case, one edit, blanks-punctuation-digits-non-ASCII, leading/trailing dots, phase-like names, "
+            "200-character names); 'empties': nothing vs the empty value for every part of a result (no metadata / empty table, no env / empty "
+            "env, no exec.d, no SBOMs) after a rich result, by update and recreate, restore, keep; 'chain': keep/update chains over 3..6 (thorough "
+            "..9) restores with types and strategy changing, special metadata integers, ending in recreate-restore-keep; 'retry': a populated "
+            "restored layer, a failing call (strategy / update / create-after-recreate / migrate callback fails, exec.d source missing, metadata "
+            "file not a document), the same call again, then every strategy x migration, restore, keep; 'procs': per-process env for process "
+            "types build, launch, w-1.x, 1 next to web, update/recreate keeping every subset; 'links': bin/lib/include/pkgconfig left by the "
+            "callback as directory / symlink to a directory / to a file / dangling / plain file (25 combinations x keep/update/recreate over "
+            "restores): returned layer data vs. the CNB reading of the directory incl. implicit layer paths; 'big': 17/21/33/65/129 (thorough: "
+            "15-22, 31-34, 63-66, 127-130) env entries over all scopes and many process types / exec.d programs / files / everything at once "
+            "with SBOMs of that many bytes / layers in one layers directory (quick <=65), created, restored, kept, updated to one element less or "
+            "more, restored, recreated; sampled: 2 000 (quick) / 30 000 (thorough) histories of <=10 operations over two or three layer names "
+            "(dotted-prefix names, plain names, or any of the universes) whose successive results on a layer are "
             "correlated: 3/4 of the results are derived from the layer's previous result by dropping a whole scope (process scopes twice "
             "as likely), dropping / changing / adding single env entries, exec.d programs, SBOMs or files, or leaving them byte-identical "
-            "(env entries in all four scopes incl. two process types, bin/lib directories, metadata incl. a tagged minority carrying keys "
-            "unknown to the versioned type); full snapshot of the layers directory after every step. non-trivial = a restore followed by a "
+            "(env entries in all scopes incl. six process types, now and then 8-37 entries, names/values from pools with non-UTF-8, '=', "
+            "suffix-like names, line breaks; contents without bytes / 300 bytes / non-UTF-8; bin/lib/include/pkgconfig/data as directories or "
+            "symlinks; special metadata integers; a tagged minority carrying keys unknown to the versioned type); full snapshot of the layers "
+            "directory after every step (symlinks with what they lead to). Left out: callbacks creating entries named env* / exec.d or symlinks "
+            "there (hypothesis of the theorems), a layer directory without its metadata file as a starting state (no operation creates it), "
+            "layer names equal to another layer's files. non-trivial = a restore followed by a "
             "handle call on a layer handled before, in a history whose results carry a per-process env entry; distinct = distinct history",
     "trusted_base": ["Spec/TraitSpec.lean is my reading of C02 (classification of the pre-state, decision table, persisted/kept clauses, CNB reading of a layer directory)",
                      "the lifecycle restore between builds is simulated by the harness exactly as the property text fixes it (same simulation as C01)"],
